@@ -3,12 +3,13 @@ M8 (part 4) — the PEG rules reachable from `exp` (grammar.pest), read over tok
 `parse_exp` / `parse_exp_leaf` (parser/rules_parser/exp_parser.rs) incl. the left fold of
 `implicit_mul`.  Ordered choice and the possessive `?`/`*` of PEG are kept: a failing alternative
 falls through to the next one, a failing repetition step backtracks to before its operator.
-Errors raised while the AST is built (`parse::<i64>` overflow) are merged with PEG failure:
-both make `RoocParser::parse` return `Err`.  Import-free.
+Two phases as in the Rust: the PEG reading (`parseExp`) and the errors raised while the AST is built, which
+can only be `parse::<i64>` overflow of an integer literal in this fragment (`validInts`).  Import-free.
 -/
 import Rooc.Gen.Grammar
 import Rooc.Syntax.Tok
 import Rooc.Syntax.Pratt
+import Rooc.Syntax.Render
 namespace Rooc.Syntax
 
 /-- how the atomic operator rules see a token: (kind, text) with kind `word` = spelled with the
@@ -40,8 +41,9 @@ def binRule (t : Tok) : Option String := ruleOfTok Gen.binaryOpAlts t
 /-- `unary_op` -/
 def unRule (t : Tok) : Option String := ruleOfTok Gen.unaryOpAlts t
 
-/-- `keyword` (the word is a maximal run, so the boundary look-ahead holds iff the whole word is listed) -/
-def isKeyword (w : String) : Bool := Gen.keywords.contains w
+/-- `keyword` (the word is a maximal run, so the boundary look-ahead holds iff the whole word is listed); the lone
+`_` (`no_par`) is no variable either: `simple_variable` needs a letter -/
+def isKeyword (w : String) : Bool := Gen.keywords.contains w || w == "_"
 
 /-- `function_name = @{ LETTER+ ~ ("_" ~ (LETTER | NUMBER)+)* }` directly followed by `(`, on a word
 without inner underscore: all letters. -/
@@ -51,10 +53,9 @@ def digitsToNat (cs : List Char) : Nat := cs.foldl (fun n c => 10 * n + (c.toNat
 
 def i64Max : Nat := 9223372036854775807
 
-/-- `Rule::integer => as_str().parse::<i64>()` -/
-def intLeaf (s : String) : Option PExp :=
-  let n := digitsToNat s.toList
-  if n ≤ i64Max then some (.int n) else none
+/-- `integer = @{ '0'..'9'+ }`: the PEG accepts every digit string; `as_str().parse::<i64>()` is part of the AST
+building that runs after the whole text has matched (`validInts`) -/
+def intLeaf (s : String) : PExp := .int (digitsToNat s.toList)
 
 /-- `primitive` (boolean) then `variable`, on a word that is not a function call.
 `boolean = @{ ("true" | "false") ~ !(LETTER | NUMBER | "_") }`: the word is a maximal run, so the boundary
@@ -67,13 +68,9 @@ def wordLeaf (w : String) (rest : List Tok) : PRes (PExp × List Tok) :=
     else .error .reject
   else if isKeyword w then .error .reject else .ok (.var w, rest)
 
-/-- `variable?` at the end of `implicit_mul` -/
-def optVariable : List Tok → Option PExp × List Tok
-  | .word w :: r => if isKeyword w then (none, .word w :: r) else (some (.var w), r)
-  | toks => (none, toks)
-
-/-- `unary_op?` -/
+/-- `unary_op?` (the operator words carry the boundary look-ahead: `not_x` is a compound variable) -/
 def optUnary : List Tok → List Item × List Tok
+  | .word w :: .us :: r => ([], .word w :: .us :: r)
   | t :: r =>
     match unRule t with
     | some rule => ([.op rule], r)
@@ -83,6 +80,104 @@ def optUnary : List Tok → List Item × List Tok
 /-- left fold of `Rule::implicit_mul` -/
 def foldMul (first second : PExp) (more : List PExp) : PExp :=
   more.foldl (fun acc e => .bin .mul acc e) (.bin .mul first second)
+
+/-- `nl*` -/
+def skipNl : List Tok → List Tok
+  | .nl :: r => skipNl r
+  | toks => toks
+
+/-- `function_name = @{ LETTER+ ~ ("_" ~ (LETTER | NUMBER)+)* }` put together again from the pieces the lexer cut
+the run of word characters into -/
+def fnNameTail : List Tok → String → String × List Tok
+  | .us :: .word s :: r, acc => fnNameTail r (acc ++ "_" ++ s)
+  | .us :: .int s :: r, acc => fnNameTail r (acc ++ "_" ++ s)
+  | toks, acc => (acc, toks)
+
+/-- `tuple = { "(" ~ (simple_variable | no_par) ~ (comma ~ (simple_variable | no_par))* ~ ")" }` after its `(`
+(`afterComma`: the `nl*` of `comma` may be skipped; the lexer does not produce `no_par`) -/
+def tupleNames : List Tok → Bool → List String → Option (List String × List Tok)
+  | .nl :: r, true, acc => tupleNames r true acc
+  | .word w :: .rpar :: r, _, acc => some (acc ++ [w], r)
+  | .word w :: .comma :: r, _, acc => tupleNames r true (acc ++ [w])
+  | _, _, _ => none
+
+/-- display of a kind: `FromStr` then `Display` (`conjunction` is printed `all`); an unknown name is kept and
+refused by the AST builder (`buildErr`) -/
+def canonKind (table : List (String × String)) (name : String) : String :=
+  match table.find? (fun e => e.1 == name) with
+  | some e => e.2
+  | none => name
+
+/-- the display the model cannot compute for an array literal (floats, strings, nested or mixed entries):
+the driver answers `unsupported` for a tree that carries it -/
+def opaquePrim : String := "\u0000"
+
+/-- entries of an `array` literal of the kinds whose `Display` the model knows -/
+inductive ArrEntry where
+  | int (s : String)
+  | bool (b : Bool)
+  | other
+
+/-- `array = { ("[" ~ nl* ~ ((_primitive ~ comma)* ~ _primitive) ~ nl* ~ "]") | ("[" ~ nl* ~ "]") }` after its `[`;
+`_primitive = _{ number | array | graph | boolean | string }` (the lexer declines `Graph {`) -/
+def arrayEntries : Nat → List Tok → List ArrEntry → Option (List ArrEntry × List Tok)
+  | 0, _, _ => none
+  | f+1, toks, acc =>
+    let entry : Option (ArrEntry × List Tok) :=
+      match toks with
+      | .int s :: r => some (.int s, r)
+      | .float _ :: r => some (.other, r)
+      | .str _ :: r => some (.other, r)
+      | .word w :: r => if w == "true" then some (.bool true, r) else if w == "false" then some (.bool false, r) else none
+      | .lbrack :: r =>
+        match skipNl r with
+        | .rbrack :: r' => some (.other, r')
+        | r1 =>
+          match arrayEntries f r1 [] with
+          | some (_, r') => some (.other, r')
+          | none => none
+      | _ => none
+    match entry with
+    | none => none
+    | some (e, r) =>
+      match r with
+      | .comma :: r' => arrayEntries f (skipNl r') (acc ++ [e])     -- `(_primitive ~ comma)*` is possessive
+      | _ =>
+        match skipNl r with
+        | .rbrack :: r' => some (acc ++ [e], r')
+        | _ => none
+
+def ArrEntry.intVal : ArrEntry → Option Nat
+  | .int s => some (digitsToNat s.toList)
+  | _ => none
+def ArrEntry.boolVal : ArrEntry → Option Bool
+  | .bool b => some b
+  | _ => none
+
+/-- `Display for IterableKind::Integers / Booleans` (`{:?}` of the vector) -/
+def joinCommaSpace : List (List Char) → List Char
+  | [] => []
+  | [x] => x
+  | x :: y :: xs => x ++ ',' :: ' ' :: joinCommaSpace (y :: xs)
+def arrayText (items : List String) : String := String.ofList ('[' :: joinCommaSpace (items.map String.toList) ++ [']'])
+
+/-- `Rule::array` leaf, `flatten_primitive_array_values` and the display of the result.  An integer entry that
+overflows `i64` is an error of the AST builder: the leaf is answered as that integer, which `validInts` refuses. -/
+def arrayLeaf (toks : List Tok) : PRes (PExp × List Tok) :=
+  match skipNl toks with
+  | .rbrack :: r => .ok (.prim "[]", r)
+  | r1 =>
+    match arrayEntries (r1.length + 1) r1 [] with
+    | none => .error .reject
+    | some (es, r) =>
+      let ints := es.filterMap ArrEntry.intVal
+      let bools := es.filterMap ArrEntry.boolVal
+      match ints.find? (fun v => decide (v > i64Max)) with
+      | some v => .ok (.int v, r)
+      | none =>
+        if ints.length == es.length then .ok (.prim (arrayText (ints.map (fun v => String.ofList (natDigits v)))), r)
+        else if bools.length == es.length then .ok (.prim (arrayText (bools.map (fun b => if b then "true" else "false"))), r)
+        else .ok (.prim opaquePrim, r)
 
 mutual
 /-- `tagged_exp`/`exp`, then `parse_exp` on its pairs -/
@@ -108,29 +203,167 @@ def collectLoop : Nat → List Tok → List Item → PRes (List Item × List Tok
     match toks with
     | [] => .ok (acc, [])
     | t :: r =>
-      match binRule t with
+      -- the operator words carry the boundary look-ahead: `and_x` is no operator
+      match (match r with | .us :: _ => none | _ => binRule t) with
       | none => .ok (acc, t :: r)
       | some rule =>
         match leaf f (optUnary r).2 with
         | .error .reject => .ok (acc, t :: r)     -- this step of the repetition fails: stop before the operator
         | .error e => .error e
         | .ok (x, rest) => collectLoop f rest (acc ++ .op rule :: (optUnary r).1 ++ [.leaf x])
-/-- `exp_leaf`: function | implicit_mul | parenthesis | primitive | variable (the alternatives that need
-`{`, `[`, `"`, `\` cannot start on a token of the sub-language) -/
+/-- `exp_leaf = _{ block_scoped_function | block_function | function | implicit_mul | parenthesis | array_access |
+primitive | variable }` -/
 def leaf : Nat → List Tok → PRes (PExp × List Tok)
   | 0, _ => .error .fuel
   | f+1, toks =>
     match toks with
-    | .word w :: .lpar :: r =>
+    | .word w :: rest =>
       if isFunctionName w then
-        match args f r with
-        | .ok (as, rest) => .ok (.call w as, rest)
-        | .error .reject => wordLeaf w (.lpar :: r)
-        | .error e => .error e
-      else wordLeaf w (.lpar :: r)
-    | .word w :: r => wordLeaf w r
+        match fnNameTail rest w with
+        | (name, .lpar :: r) =>
+          match scopedFn f name (skipNl r) with
+          | .ok res => .ok res
+          | .error .reject =>
+            match args f r with
+            | .ok (as, rest') => .ok (.call name as, rest')
+            | .error .reject => wordRest f w rest
+            | .error e => .error e
+          | .error e => .error e
+        | (name, .lbrace :: r) =>
+          match expList f (skipNl r) [] with
+          | .ok (es, r') =>
+            match skipNl r' with
+            | .rbrace :: r'' => .ok (.block (canonKind Gen.blockKinds name) es, r'')
+            | _ => wordRest f w rest
+          | .error .reject => wordRest f w rest
+          | .error e => .error e
+        | _ => wordRest f w rest
+      else wordRest f w rest
     | .int _ :: _ | .float _ :: _ | .lpar :: _ => imulOrSingle f toks
+    | .lbrack :: r => arrayLeaf r
+    | .str s :: r => .ok (.str s, r)
     | _ => .error .reject
+/-- `array_access | primitive | variable` on a word -/
+def wordRest : Nat → String → List Tok → PRes (PExp × List Tok)
+  | 0, _, _ => .error .fuel
+  | f+1, w, rest =>
+    match rest with
+    | .lbrack :: _ =>
+      -- `array_access = { simple_variable ~ pointer_access_list }` (no keyword look-ahead; `_` is no `simple_variable`)
+      if w == "_" then wordLeaf w rest else
+      match accessLoop f rest [] with
+      | .ok ([], _) => wordLeaf w rest
+      | .ok (idx, r') => .ok (.access w idx, r')
+      | .error e => .error e
+    | .us :: _ =>
+      -- a word followed by `_` is neither a keyword nor a boolean: `compound_variable`, else `simple_variable`
+      match indexLoop f rest [] with
+      | .ok ([], _) => .ok (.var w, rest)
+      | .ok (idx, r') => .ok (.cvar w idx, r')
+      | .error e => .error e
+    | _ => wordLeaf w rest
+/-- `block_scoped_function` after `name "(" nl*`: `iteration_declaration_list ~ nl* ~ ")" ~ "{" ~ nl* ~ tagged_exp ~
+nl* ~ "}"` -/
+def scopedFn : Nat → String → List Tok → PRes (PExp × List Tok)
+  | 0, _, _ => .error .fuel
+  | f+1, name, toks =>
+    match iterList f toks [] [] with
+    | .error e => .error e
+    | .ok ((vs, its), r) =>
+      match skipNl r with
+      | .rpar :: .lbrace :: r1 =>
+        match parseExp f (skipNl r1) with
+        | .error e => .error e
+        | .ok (body, r2) =>
+          match skipNl r2 with
+          | .rbrace :: r3 => .ok (.scoped (canonKind Gen.scopedKinds name) vs its body, r3)
+          | _ => .error .reject
+      | _ => .error .reject
+/-- `iteration_declaration_list = { (iteration_declaration ~ comma)* ~ iteration_declaration }` -/
+def iterList : Nat → List Tok → List IterVar → List PExp → PRes ((List IterVar × List PExp) × List Tok)
+  | 0, _, _, _ => .error .fuel
+  | f+1, toks, vs, its =>
+    match iterDecl f toks with
+    | .error e => .error e
+    | .ok ((v, it), .comma :: r) => iterList f (skipNl r) (vs ++ [v]) (its ++ [it])
+    | .ok ((v, it), r) => .ok ((vs ++ [v], its ++ [it]), r)
+/-- `iteration_declaration = { (simple_variable | tuple) ~ ^"in" ~ iterator }` -/
+def iterDecl : Nat → List Tok → PRes ((IterVar × PExp) × List Tok)
+  | 0, _ => .error .fuel
+  | f+1, toks =>
+    match toks with
+    | .word v :: .word i :: r =>
+      if lowerWord i == "in" && v != "_" then
+        match iterator f r with
+        | .ok (it, r') => .ok ((.single v, it), r')
+        | .error e => .error e
+      else .error .reject
+    | .lpar :: r =>
+      match tupleNames r false [] with
+      | some (ns, .word i :: r') =>
+        if lowerWord i == "in" then
+          match iterator f r' with
+          | .ok (it, r'') => .ok ((.tuple ns, it), r'')
+          | .error e => .error e
+        else .error .reject
+      | _ => .error .reject
+    | _ => .error .reject
+/-- `iterator = { range_iterator | tagged_exp }`, `range_iterator = { tagged_exp ~ range_type ~ tagged_exp }`
+(`parse_iterator` builds `range(from, to, <inclusive>)`) -/
+def iterator : Nat → List Tok → PRes (PExp × List Tok)
+  | 0, _ => .error .fuel
+  | f+1, toks =>
+    match parseExp f toks with
+    | .error e => .error e
+    | .ok (a, .dotdot :: r) =>
+      match parseExp f r with
+      | .ok (b, r') => .ok (.call "range" [a, b, .bool false], r')
+      | .error .reject => .ok (a, .dotdot :: r)
+      | .error e => .error e
+    | .ok (a, .dotdoteq :: r) =>
+      match parseExp f r with
+      | .ok (b, r') => .ok (.call "range" [a, b, .bool true], r')
+      | .error .reject => .ok (a, .dotdoteq :: r)
+      | .error e => .error e
+    | .ok (a, r) => .ok (a, r)
+/-- `comma_separated_exp = { (tagged_exp ~ comma)* ~ tagged_exp }` -/
+def expList : Nat → List Tok → List PExp → PRes (List PExp × List Tok)
+  | 0, _, _ => .error .fuel
+  | f+1, toks, acc =>
+    match parseExp f toks with
+    | .error e => .error e
+    | .ok (a, .comma :: r) => expList f (skipNl r) (acc ++ [a])
+    | .ok (a, r) => .ok (acc ++ [a], r)
+/-- `pointer_access_list = { (pointer_access)+ }`, `pointer_access = _{ ^"[" ~ tagged_exp ~ ^"]" }`: the accesses read
+so far (a step that fails ends the repetition before its `[`) -/
+def accessLoop : Nat → List Tok → List PExp → PRes (List PExp × List Tok)
+  | 0, _, _ => .error .fuel
+  | f+1, toks, acc =>
+    match toks with
+    | .lbrack :: r =>
+      match parseExp f r with
+      | .ok (e, .rbrack :: r') => accessLoop f r' (acc ++ [e])
+      | .ok _ => .ok (acc, toks)
+      | .error .reject => .ok (acc, toks)
+      | .error e => .error e
+    | _ => .ok (acc, toks)
+/-- `("_" ~ compound_variable_body)+` with `compound_variable_body = _{ (underscore_literal | simple_variable | number)
+| "{" ~ nl* ~ (tagged_exp) ~ nl* ~ "}" }` and `parse_compound_variable_index` -/
+def indexLoop : Nat → List Tok → List PExp → PRes (List PExp × List Tok)
+  | 0, _, _ => .error .fuel
+  | f+1, toks, acc =>
+    match toks with
+    | .us :: .word s :: r => indexLoop f r (acc ++ [.var s])
+    | .us :: .int s :: r => indexLoop f r (acc ++ [intLeaf s])
+    | .us :: .lbrace :: r =>
+      match parseExp f (skipNl r) with
+      | .ok (e, r') =>
+        match skipNl r' with
+        | .rbrace :: r'' => indexLoop f r'' (acc ++ [e])
+        | _ => .ok (acc, toks)
+      | .error .reject => .ok (acc, toks)
+      | .error e => .error e
+    | _ => .ok (acc, toks)
 /-- `function_pars ~ ")"` with `function_pars = { (tagged_exp ~ (comma ~ tagged_exp)*)? }` -/
 def args : Nat → List Tok → PRes (List PExp × List Tok)
   | 0, _ => .error .fuel
@@ -148,7 +381,7 @@ def argsTail : Nat → List Tok → List PExp → PRes (List PExp × List Tok)
     match toks with
     | .rpar :: r => .ok (acc, r)
     | .comma :: r =>
-      match parseExp f r with
+      match parseExp f (skipNl r) with
       | .ok (a, r') => argsTail f r' (acc ++ [a])
       | .error e => .error e
     | _ => .error .reject
@@ -159,9 +392,7 @@ def atoms : Nat → List Tok → List PExp → PRes (List PExp × List Tok)
   | f+1, toks, acc =>
     match toks with
     | .int s :: r =>
-      match intLeaf s with
-      | some t => atoms f r (acc ++ [t])
-      | none => .error .reject
+      atoms f r (acc ++ [intLeaf s])
     | .float s :: r => atoms f r (acc ++ [.num s])
     | .lpar :: r =>
       match parseExp f r with
@@ -169,6 +400,18 @@ def atoms : Nat → List Tok → List PExp → PRes (List PExp × List Tok)
       | .ok _ => .error .reject
       | .error e => .error e
     | _ => .ok (acc, toks)
+/-- `variable?` at the end of `implicit_mul`: `!keyword ~ (compound_variable | simple_variable | …)` -/
+def optVariable : Nat → List Tok → PRes (Option PExp × List Tok)
+  | 0, _ => .error .fuel
+  | f+1, toks =>
+    match toks with
+    | .word w :: .us :: r =>
+      match indexLoop f (.us :: r) [] with
+      | .ok ([], _) => .ok (some (.var w), .us :: r)
+      | .ok (idx, r') => .ok (some (.cvar w idx), r')
+      | .error e => .error e
+    | .word w :: r => if isKeyword w then .ok (none, toks) else .ok (some (.var w), r)
+    | _ => .ok (none, toks)
 /-- `implicit_mul = { (number | parenthesis){2,} ~ variable? | (number | parenthesis) ~ variable }`, else
 `parenthesis`, else `primitive` (number) -/
 def imulOrSingle : Nat → List Tok → PRes (PExp × List Tok)
@@ -178,23 +421,80 @@ def imulOrSingle : Nat → List Tok → PRes (PExp × List Tok)
     | .error e => .error e
     | .ok ([], _) => .error .reject
     | .ok ([a], rest) =>
-      match optVariable rest with
-      | (some v, rest') => .ok (.bin .mul a v, rest')
-      | (none, _) => .ok (a, rest)
+      match optVariable f rest with
+      | .ok (some v, rest') => .ok (.bin .mul a v, rest')
+      | .ok (none, _) => .ok (a, rest)
+      | .error e => .error e
     | .ok (a :: b :: more, rest) =>
-      match optVariable rest with
-      | (some v, rest') => .ok (foldMul a b (more ++ [v]), rest')
-      | (none, _) => .ok (foldMul a b more, rest)
+      match optVariable f rest with
+      | .ok (some v, rest') => .ok (foldMul a b (more ++ [v]), rest')
+      | .ok (none, _) => .ok (foldMul a b more, rest)
+      | .error e => .error e
 end
 
 def parseFuel (toks : List Tok) : Nat := 6 * toks.length + 10
 
-/-- a whole token sequence as one expression (what `min <exp>␤s.t.…` demands of the objective) -/
-def parseToks (toks : List Tok) : PRes PExp :=
+/-- `parse_block_function_type` / `exact_arity` -/
+def blockKindErr (k : String) (n : Nat) : Option String :=
+  if !(Gen.blockKinds.any (fun e => e.2 == k)) then some "unknown-block"
+  else match Gen.blockArity.find? (fun e => e.1 == k) with
+    | some e => if n == e.2 then none else some "block-arity"
+    | none => none
+
+/-- `parse_scoped_block_function_type` -/
+def scopedKindErr (k : String) : Option String :=
+  if Gen.scopedKinds.any (fun e => e.2 == k) then none else some "unknown-scoped"
+
+mutual
+/-- the first error `parse_exp` raises while it builds the tree out of the pairs (the leaves are visited from
+left to right): an integer literal beyond `i64` (`parse_number`, `parse_compound_variable_index`), an unknown
+block function, a block with the wrong number of members -/
+def buildErr : PExp → Option String
+  | .int v => if v ≤ i64Max then none else some "int-overflow"
+  | .cvar _ as | .access _ as | .call _ as => buildErrList as
+  | .block k as =>
+    match buildErrList as with
+    | some e => some e
+    | none => blockKindErr k as.length
+  | .scoped k _ its b =>
+    match buildErrList its with
+    | some e => some e
+    | none =>
+      match scopedKindErr k with
+      | some e => some e
+      | none => buildErr b
+  | .bin _ l r =>
+    match buildErr l with
+    | some e => some e
+    | none => buildErr r
+  | .un _ e => buildErr e
+  | _ => none
+def buildErrList : List PExp → Option String
+  | [] => none
+  | e :: es =>
+    match buildErr e with
+    | some x => some x
+    | none => buildErrList es
+end
+
+/-- the PEG phase: a whole token sequence as one expression (what `min <exp>␤s.t.…` demands of the objective) -/
+def parseToksRaw (toks : List Tok) : PRes PExp :=
   match parseExp (parseFuel toks) toks with
   | .ok (t, []) => .ok t
   | .ok (_, _ :: _) => .error .reject
   | .error e => .error e
+
+/-- PEG phase, then the AST-building errors -/
+def parseToks (toks : List Tok) : PRes PExp :=
+  match parseToksRaw toks with
+  | .ok t => if (buildErr t).isNone then .ok t else .error .reject
+  | .error e => .error e
+
+/-- why a text is rejected: the PEG does not match (`peg`), or it matches and building the AST fails -/
+def rejectClass (toks : List Tok) : String :=
+  match parseToksRaw toks with
+  | .ok t => (buildErr t).getD "none"
+  | .error _ => "peg"
 
 inductive TextRes where
   | ok (t : PExp)
